@@ -210,3 +210,17 @@ Example C01_first_nonvacuous :
   run_job (prog_q atlas {| q_filter := None; q_body := QRow r2 |} 1) [ev3; ev4; ev3] =
   JAbort [[[VDbl (QArith_base.Qmake 31 2); VInt 3]]] 1 FThrow.
 Proof. vm_compute. repeat split; reflexivity. Qed.
+
+(* ---------- CMS miniAOD ---------- *)
+(* The miniAOD job of a query is the CMS job read through tokens: one token per collection use, named before
+   everything else, declared as a class member and initialised in the booking code (Model/FragQuery.v prog_q_mini;
+   its whole text - per-event code, class declaration, token initialisations, branches - is compared with the
+   implementation's on every run).  It writes exactly the same rows. *)
+Theorem C01_query_job_miniaod :
+  forall (bk : backend) (q : query) (n0 : nat) (evs : list event),
+  let n1 := n0 + List.length (fetches_block (p_body (prog_q bk q n0))) in
+  query_ok q = true -> NoDup (bmems (q_body q) (body_start q n1)) ->
+  (forall ev, In ev evs -> nstuck (dquery ev q)) ->
+  run_job (prog_q_mini bk q n0) evs = djob q evs.
+Proof. exact frag_job_correct_mini. Qed.
+Print Assumptions C01_query_job_miniaod.
